@@ -328,3 +328,319 @@ def rule_measure(db, chk, cfg, rule="POLY.measure"):
     if n < 6:
         raise AnalysisBroken("POLY.measure: only %d equations found in configuration %s" % (n, cfg))
     return n
+
+
+# ---------------------------------------------------------------------------
+# POLY.topx: the x of an edge at a scanline
+# ---------------------------------------------------------------------------
+
+def rule_topx(db, chk, cfg, rule="POLY.topx"):
+    """TopX(edge, y) is the x of the line through edge.bot and edge.top at height y: with dx = GetDx(bot, top) = (top.x-bot.x)/(top.y-bot.y)
+    (SetDx stores exactly that) the general return value F satisfies (F - bot.x)(top.y - bot.y) == (top.x - bot.x)(y - bot.y); every
+    shortcut `if (A == B [|| ...]) return V` agrees with F once A is replaced by B."""
+    from ..poly import UFUNCS
+    n = 0
+    f = db.one("TopX")
+    ae, cy = _pname(f, 0), _pname(f, 1)
+    pe = PolyEval(db, extended=True)
+    rets = []
+
+    def on_return(ev, v, s):
+        try:
+            rets.append((ev.ev(v), s))
+        except Unsupported:
+            rets.append((None, s))
+    pe.on_return = on_return
+    pe.top_returns_only = True
+    pe.bind_block(f.body)
+    if len(rets) != 1 or rets[0][0] is None:
+        raise AnalysisBroken("POLY.topx: TopX has no single arithmetic unconditional return")
+    F = rets[0][0]
+    g = db.one("GetDx")
+    p1, p2 = _pname(g, 0), _pname(g, 1)
+    pg = PolyEval(db, extended=True)
+    grets = []
+
+    def on_gret(ev, v, s):
+        try:
+            r = ev.ev(v)
+            if r.vars():
+                grets.append((r, s))
+        except Unsupported:
+            pass
+    pg.on_return = on_gret
+    pg.bind_block(g.body)
+    if len(grets) != 1:
+        raise AnalysisBroken("POLY.topx: GetDx has %d non-constant arithmetic returns (expected 1)" % len(grets))
+    want_dx = (V(p2 + ".x") - V(p1 + ".x")) / (V(p2 + ".y") - V(p1 + ".y"))
+    n += 1
+    ok = grets[0][0].same(want_dx)
+    chk.instance(rule, {"function": "GetDx", "equation": "dx == (pt2.x - pt1.x) / (pt2.y - pt1.y)", "cfg": cfg}, ok=ok)
+    if not ok:
+        chk.violation(rule, g.qual, "GetDx", "GetDx returns %s, not the inverse slope (pt2.x - pt1.x) / (pt2.y - pt1.y)" % _short(grets[0][0]), where(grets[0][1]), cfg=cfg)
+    # SetDx: e.dx = GetDx(e.bot, e.top)
+    sd = db.one("SetDx")
+    e0 = _pname(sd, 0)
+    calls = [c for c in walk(sd.body) if c.get("kind") == "CallExpr" and db.callee(c)[0] == "GetDx"]
+    n += 1
+    ok = len(calls) == 1 and [canon(a) for a in db.call_args(calls[0])] == ["%s.bot" % e0, "%s.top" % e0] and \
+        any(x.get("kind") == "BinaryOperator" and x.get("opcode") == "=" and canon(kids(x)[0]) == "%s.dx" % e0 and strip(kids(x)[1]) is calls[0] for x in walk(sd.body))
+    chk.instance(rule, {"function": "SetDx", "equation": "e.dx = GetDx(e.bot, e.top)", "cfg": cfg}, ok=ok)
+    if not ok:
+        chk.violation(rule, sd.qual, "SetDx", "SetDx no longer stores GetDx(e.bot, e.top) into e.dx (TopX's formula is written for the slope measured from bot to top)",
+                      sd.where, cfg=cfg)
+    # general formula
+    dx = (V(ae + ".top.x") - V(ae + ".bot.x")) / (V(ae + ".top.y") - V(ae + ".bot.y"))
+    Fd = F.subst(ae + ".dx", dx)
+    lhs = (Fd - V(ae + ".bot.x")) * (V(ae + ".top.y") - V(ae + ".bot.y"))
+    rhs = (V(ae + ".top.x") - V(ae + ".bot.x")) * (V(cy) - V(ae + ".bot.y"))
+    n += 1
+    ok = lhs.same(rhs)
+    chk.instance(rule, {"function": "TopX", "equation": "(TopX - bot.x)(top.y - bot.y) == (top.x - bot.x)(y - bot.y)", "rounded": pe.rounded, "cfg": cfg}, ok=ok)
+    if not ok:
+        chk.violation(rule, f.qual, "general", "TopX's general value %s is not the x of the line through bot and top at the given y (with dx = (top.x-bot.x)/(top.y-bot.y))"
+                      % _short(F), where(rets[0][1]), cfg=cfg)
+    # shortcuts
+    chain = []
+    todo = [x for x in kids(f.body) if isinstance(x, dict)]
+    while todo:
+        x = todo.pop(0)
+        if x.get("kind") == "IfStmt":
+            chain.append(x)
+            e_ = if_parts(x)[2]
+            if e_ is not None:
+                todo = ([e_] if e_.get("kind") != "CompoundStmt" else list(kids(e_))) + todo
+    for s in chain:
+        cond, then, els = if_parts(s)
+        rs = [y for y in walk(then) if y.get("kind") == "ReturnStmt" and kids(y)]
+        if len(rs) != 1:
+            continue
+        try:
+            val = pe.ev(kids(rs[0])[0])
+        except Unsupported:
+            continue
+
+        def disjuncts(c):
+            c0 = _skip(c)
+            if c0.get("kind") == "BinaryOperator" and c0.get("opcode") == "||":
+                return disjuncts(kids(c0)[0]) + disjuncts(kids(c0)[1])
+            return [c0]
+        for d in disjuncts(cond):
+            if not (d.get("kind") == "BinaryOperator" and d.get("opcode") == "=="):
+                raise AnalysisBroken("POLY.topx: shortcut guard `%s` of TopX is not a disjunction of equalities" % canon(d)[:60])
+            try:
+                a, b = pe.ev(kids(d)[0]), pe.ev(kids(d)[1])
+            except Unsupported as e:
+                raise AnalysisBroken("POLY.topx: shortcut guard `%s` is not arithmetic: %s" % (canon(d)[:60], e))
+            va = [v for v in a.vars()]
+            if len(va) != 1 or not a.same(V(va[0])):
+                a, b = b, a
+                va = [v for v in a.vars()]
+            if len(va) != 1 or not a.same(V(va[0])):
+                raise AnalysisBroken("POLY.topx: neither side of `%s` is a plain variable" % canon(d)[:60])
+            var = va[0]
+            # under var == b: the general formula (with the slope substituted, cleared of its denominator) equals the shortcut value
+            Fs = Fd.subst(var, b)
+            vs = val.subst(var, b)
+            n += 1
+            ok = False
+            try:
+                ok = Fs.same(vs)
+            except Exception:
+                ok = False
+            if not ok:
+                # vertical edge: top.x == bot.x makes dx == 0 - the substituted slope may have a zero denominator-free form already
+                ok = (Fs.n * vs.d - vs.n * Fs.d).is_zero()
+            chk.instance(rule, {"function": "TopX", "shortcut": canon(d)[:50], "returns": _short(val, 40), "cfg": cfg}, ok=ok)
+            if not ok:
+                chk.violation(rule, f.qual, "shortcut|%s" % canon(d)[:40], "TopX returns %s when %s, but its general formula gives %s there"
+                              % (_short(val, 40), canon(d)[:50], _short(Fs, 80)), where(rs[0]), cfg=cfg)
+    return n
+
+
+# ---------------------------------------------------------------------------
+# POLY.offset: the join formulas of ClipperOffset
+# ---------------------------------------------------------------------------
+
+def _emplaced(db, pe_factory, body):
+    """[(X, Y, node)] appended to path_out by the straight-line statements of body, in order."""
+    out = []
+    pe = pe_factory()
+
+    def on_expr(ev, s):
+        s0 = _skip(s)
+        while s0.get("kind") in ("ExprWithCleanups",) and kids(s0):
+            s0 = _skip(kids(s0)[0])
+        if s0.get("kind") == "CXXMemberCallExpr" and db.callee(s0)[0] in ("emplace_back", "push_back") and canon(db.member_base(s0)).endswith("path_out"):
+            a = [x for x in db.call_args(s0) if x.get("kind") != "CXXDefaultArgExpr"]
+            try:
+                if len(a) == 1:
+                    g = ev._agg_of(a[0])
+                    out.append((g.get("x"), g.get("y"), s0))
+                elif len(a) >= 2:
+                    out.append((ev.ev(a[0]), ev.ev(a[1]), s0))
+            except Unsupported as e:
+                out.append((None, str(e), s0))
+    pe.on_expr = on_expr
+    pe.bind_block(body if body.get("kind") in ("CompoundStmt", None) else {"inner": [body]})
+    return out, pe
+
+
+def rule_offset(db, chk, cfg, rule="POLY.offset"):
+    """Formulas of the offsetter, as identities of normal forms over path[j], norms[j], norms[k], group_delta_:
+    GetUnitNormal is the unit vector (dy, -dx)/|d| (perpendicular, unit length, right-hand side);
+    sin_a / cos_a of OffsetPoint are cross(norms[k], norms[j]) and dot(norms[k], norms[j]);
+    DoMiter appends path[j] + (norms[k] + norms[j]) * delta / (1 + cos_a);
+    DoBevel appends path[j] + delta*norms[k] then path[j] + delta*norms[j] (and path[j] -/+ |delta| norms[j] for a single-vertex cap);
+    DoRound starts at path[j] + delta*norms[k] and turns the offset vector by the rotation (step_cos_, step_sin_);
+    GetPerpendic(D) is pt + norm * delta."""
+    from ..poly import UFUNCS
+    n = 0
+
+    def judge(fq, key, ok, text, node, got=None):
+        nonlocal n
+        n += 1
+        chk.instance(rule, {"function": fq, "equation": text, "cfg": cfg}, ok=ok)
+        if not ok:
+            chk.violation(rule, fq, key, "%s: %s does not hold%s" % (fq, text, (" (found %s)" % got) if got else ""), where(node) if isinstance(node, dict) else node, cfg=cfg)
+
+    P = lambda s: (V(s + ".x"), V(s + ".y"))
+    # GetUnitNormal
+    f = db.one("GetUnitNormal")
+    a, b = _pname(f, 0), _pname(f, 1)
+    pe = PolyEval(db, extended=True)
+    outs = []
+
+    def on_ret(ev, v, s):
+        try:
+            outs.append((ev._agg_of(v), s))
+        except Unsupported:
+            pass
+    pe.on_return = on_ret
+    pe.top_returns_only = True
+    pe.bind_block(f.body)
+    if len(outs) != 1:
+        raise AnalysisBroken("POLY.offset: GetUnitNormal has no single unconditional point-valued return")
+    nx, ny = outs[0][0].get("x"), outs[0][0].get("y")
+    dx, dy = V(b + ".x") - V(a + ".x"), V(b + ".y") - V(a + ".y")
+    judge("GetUnitNormal", "perp", (nx * dx + ny * dy).is_zero(), "normal . (pt2 - pt1) == 0", outs[0][1], _short(nx * dx + ny * dy, 60))
+    roots = [s for s in (nx.vars() | ny.vars()) if s in UFUNCS and UFUNCS[s][0] in ("sqrt", "hypot", "Hypot")]
+    okr = False
+    if len(roots) == 1:
+        nm, args = UFUNCS[roots[0]]
+        q = args[0] if nm == "sqrt" else (args[0] * args[0] + args[1] * args[1] if len(args) == 2 else None)
+        if q is not None and q.same(dx * dx + dy * dy):
+            S = V(roots[0])
+            unit = (nx * nx + ny * ny - Rat.const(1)).reduce_square(roots[0], q)
+            orient = dx * ny - dy * nx + (dx * dx + dy * dy) / S
+            judge("GetUnitNormal", "unit", unit.is_zero(), "|normal|^2 == 1", outs[0][1])
+            judge("GetUnitNormal", "side", orient.is_zero(), "(pt2-pt1) x normal == -|pt2-pt1| (the normal points to the right of the edge)", outs[0][1])
+            okr = True
+    if not okr:
+        judge("GetUnitNormal", "root", False, "the normal is (dy, -dx) divided by sqrt(dx^2 + dy^2)", outs[0][1], "%s, %s" % (_short(nx, 50), _short(ny, 50)))
+    # GetPerpendic / GetPerpendicD
+    for q in ("GetPerpendic", "GetPerpendicD"):
+        for g in db.find(q):
+            if g.body is None or len(g.params) != 3:
+                continue
+            pt, nm, dl = [_pname(g, i) for i in range(3)]
+            pg = PolyEval(db, extended=True)
+            o2 = []
+            pg.on_return = lambda ev, v, s, o2=o2: o2.append((ev._agg_of(v), s))
+            try:
+                pg.bind_block(g.body)
+            except Unsupported as e:
+                raise AnalysisBroken("POLY.offset: %s is not arithmetic: %s" % (q, e))
+            if len(o2) != 1:
+                raise AnalysisBroken("POLY.offset: %s has no single point-valued return" % q)
+            X, Y = o2[0][0].get("x"), o2[0][0].get("y")
+            judge(q, "formula", X.same(V(pt + ".x") + V(nm + ".x") * V(dl)) and Y.same(V(pt + ".y") + V(nm + ".y") * V(dl)), "result == pt + norm * delta", o2[0][1],
+                  "%s, %s" % (_short(X, 40), _short(Y, 40)))
+    pj, nk, nj, dlt = P("path[j]"), P("norms[k]"), P("norms[j]"), V("group_delta_")
+    fac = lambda: PolyEval(db, extended=True)
+    # DoMiter
+    f = db.one("ClipperOffset::DoMiter")
+    em, pe = _emplaced(db, fac, f.body)
+    if len(em) != 1 or em[0][0] is None:
+        raise AnalysisBroken("POLY.offset: DoMiter does not append exactly one arithmetic point (%s)" % (em[0][1] if em else "none"))
+    ca = V(_pname(f, 3))
+    for ax in (0, 1):
+        want = pj[ax] + (nk[ax] + nj[ax]) * dlt / (ca + Rat.const(1))
+        judge(f.qual, "miter.%s" % "xy"[ax], em[0][ax].same(want), "appended %s == path[j] + (norms[k] + norms[j]) * group_delta_ / (1 + cos_a)" % "xy"[ax], em[0][2], _short(em[0][ax], 70))
+    # DoBevel: branch on j == k
+    f = db.one("ClipperOffset::DoBevel")
+    br = [s for s in kids(f.body) if s.get("kind") == "IfStmt"]
+    if len(br) != 1:
+        raise AnalysisBroken("POLY.offset: DoBevel no longer has a single top-level branch (cap / join)")
+    cond, then, els = if_parts(br[0])
+    if canon(cond).replace(" ", "") not in ("(j==k)", "j==k", "(k==j)", "k==j"):
+        raise AnalysisBroken("POLY.offset: DoBevel's branch is not `j == k`")
+    for which, blk in (("cap", then), ("join", els)):
+        pe = PolyEval(db, extended=True)
+        pe.bind_block({"inner": [s for s in kids(f.body) if s is not br[0] and s.get("kind") == "DeclStmt"]})
+        pe.bind_block(blk if blk.get("kind") == "CompoundStmt" else {"inner": [blk]})
+        em, _ = _emplaced(db, lambda pe=pe: _clone(pe), {"inner": [s for s in kids(f.body) if s is not br[0] and s.get("kind") != "DeclStmt"]})
+        if len(em) != 2 or em[0][0] is None or em[1][0] is None:
+            raise AnalysisBroken("POLY.offset: DoBevel (%s) does not append two arithmetic points" % which)
+        if which == "join":
+            w = [(pj[0] + dlt * nk[0], pj[1] + dlt * nk[1]), (pj[0] + dlt * nj[0], pj[1] + dlt * nj[1])]
+            text = "appends path[j] + delta*norms[k], then path[j] + delta*norms[j]"
+        else:
+            ab = [s for s in (em[0][0].vars() | em[1][0].vars()) if s in UFUNCS and UFUNCS[s][0] in ("abs", "fabs") and UFUNCS[s][1][0].same(dlt)]
+            if len(ab) != 1:
+                judge(f.qual, "cap.abs", False, "the single-vertex cap uses |group_delta_|", br[0])
+                continue
+            A = V(ab[0])
+            w = [(pj[0] - A * nj[0], pj[1] - A * nj[1]), (pj[0] + A * nj[0], pj[1] + A * nj[1])]
+            text = "cap: appends path[j] - |delta| norms[j], then path[j] + |delta| norms[j]"
+        ok = all(em[i][ax].same(w[i][ax]) for i in (0, 1) for ax in (0, 1))
+        judge(f.qual, "bevel.%s" % which, ok, text, br[0], "%s, %s | %s, %s" % (_short(em[0][0], 40), _short(em[0][1], 40), _short(em[1][0], 40), _short(em[1][1], 40)))
+    # DoRound: first point and rotation step
+    f = db.one("ClipperOffset::DoRound")
+    em, pe = _emplaced(db, fac, f.body)
+    em = [e for e in em if e[0] is not None]
+    if not em:
+        raise AnalysisBroken("POLY.offset: DoRound appends no arithmetic point in its straight-line part")
+    judge(f.qual, "round.first", em[0][0].same(pj[0] + dlt * nk[0]) and em[0][1].same(pj[1] + dlt * nk[1]), "the arc starts at path[j] + delta*norms[k]", em[0][2],
+          "%s, %s" % (_short(em[0][0], 40), _short(em[0][1], 40)))
+    loops = [l for l in kids(f.body) if l.get("kind") == "ForStmt"]
+    rot = None
+    for l in loops:
+        for x in walk(kids(l)[-1]):
+            if x.get("kind") == "CXXOperatorCallExpr" and db.callee(x)[0] == "operator=" and len(kids(x)) == 3:
+                lhs = _skip(kids(x)[1])
+                if lhs.get("kind") == "DeclRefExpr" and _skip(kids(x)[2]) is not None:
+                    rot = (lhs, kids(x)[2], x)
+                    break
+        if rot:
+            break
+    if rot is None:
+        raise AnalysisBroken("POLY.offset: the rotation step of DoRound (`offsetVec = PointD(...)` in the loop) was not found")
+    from ..poly import Agg
+    pr = PolyEval(db, extended=True)
+    pr.env[rot[0]["referencedDecl"]["id"]] = Agg(base="v")
+    try:
+        g = pr._agg_of(rot[1])
+    except Unsupported as e:
+        raise AnalysisBroken("POLY.offset: rotation step of DoRound is not arithmetic: %s" % e)
+    c, s_ = V("step_cos_"), V("step_sin_")
+    vx, vy = V("v.x"), V("v.y")
+    judge(f.qual, "round.step", g.get("x").same(vx * c - s_ * vy) and g.get("y").same(vx * s_ + vy * c), "each step turns the offset vector by the rotation "
+          "(step_cos_, step_sin_): v' = (v.x c - v.y s, v.x s + v.y c)", rot[2], "%s, %s" % (_short(g.get("x"), 40), _short(g.get("y"), 40)))
+    # OffsetPoint: sin_a, cos_a
+    f = db.one("ClipperOffset::OffsetPoint")
+    pe = PolyEval(db, extended=True)
+    pe.bind_block(f.body)
+    decls = {d.get("name"): d for st in walk(f.body) if st.get("kind") == "DeclStmt" for d in kids(st) if d.get("kind") == "VarDecl"}
+    for nm, want, text in (("sin_a", nk[0] * nj[1] - nk[1] * nj[0], "sin_a == norms[k] x norms[j] (positive for a left turn)"),
+                           ("cos_a", nk[0] * nj[0] + nk[1] * nj[1], "cos_a == norms[k] . norms[j]")):
+        d = decls.get(nm)
+        if d is None or pe.env.get(d.get("id")) is None or not isinstance(pe.env[d["id"]], Rat):
+            raise AnalysisBroken("POLY.offset: local %s of OffsetPoint not found or not arithmetic" % nm)
+        judge(f.qual, nm, pe.env[d["id"]].same(want), text, d, _short(pe.env[d["id"]], 70))
+    return n
+
+
+def _clone(pe):
+    q = PolyEval(pe.db, dict(pe.env), extended=pe.extended)
+    return q
